@@ -199,6 +199,8 @@ LEVEL_TEXT['C20'] += ' Added (unit cdsyntax, unbounded Verus proof): the interpr
 TECH['C20'] += ' + contract-based deductive verification (Verus, Z3) of cd::syntax::parse and read::syntax::parse'
 LEVEL_TEXT['C02'] += ' Added (unit andorparse): Parser::and_or_list pairs every pipeline after the first with the operator consumed right in front of it (AndThen exactly for `&&`).'
 TECH['C02'] += ' + Parser::and_or_list'
+LEVEL_TEXT['C05'] += ' Added (unit globpush): SearchEnv::push_component delivers a path at the last component exactly when its existence is known or found, descends below `path/` for exactly the rest of the field otherwise, and restores the path being built.'
+TECH['C05'] += ' + SearchEnv::push_component'
 
 def main():
     checks = []
